@@ -335,10 +335,26 @@ func (c *c07Env) apply(a c07Action, seqName string) {
 		if m.DirUp && !m.Outage {
 			if accepted {
 				m.Primary[u] = &c07Row{PW: pw, Owner: u}
-				if _, _, ok := c.rowJWS(c.side, u); !ok {
+				if j, colExp, ok := c.rowJWS(c.side, u); !ok {
 					c.rep.Violate("C07/accepted-without-refresh", "a directory-confirmed login did not leave a cached hash in the primary store", cs)
 				} else {
 					c.rep.Count("refresh_checked", 1)
+					// "younger than its expiry (96 hours)": the record just written may not be good for longer, neither
+					// by its signed expiry nor by the unsigned column
+					limit := time.Now().Add(96*time.Hour + time.Minute).Unix()
+					signedExp := int64(-1)
+					if _, pl, _, ok := verifSplitJWS(j); ok {
+						var cl verifClaims
+						if json.Unmarshal(pl, &cl) == nil {
+							signedExp = verifClaimInt(cl, "exp")
+						}
+					}
+					if colExp > limit || signedExp > limit || signedExp == 0 {
+						cs["record_expiry_column"], cs["record_expiry_signed"], cs["limit_now_plus_96h"] = colExp, signedExp, limit
+						c.rep.Violate("C07/cached-hash-outlives-96h", "the cached hash written by a directory-confirmed login is valid for longer than 96 hours", cs)
+					} else {
+						c.rep.Count("record_expiry_checked", 1)
+					}
 				}
 			} else if row := m.Primary[u]; row != nil && row.Bad == "" && row.Owner == u && row.PW == pw {
 				delete(m.Primary, u)
@@ -481,5 +497,6 @@ func TestVerifC07(t *testing.T) {
 	rep.Floor("accepted_cache", 20)
 	rep.Floor("refresh_checked", 300)
 	rep.Floor("eviction_checked", 5)
+	rep.Floor("record_expiry_checked", 20)
 	rep.Assume("record expiry (96 h) is simulated by re-issuing the record through the daemon's own store with a past expiry; the directory is a local LDAPS fake trusted through SSL_CERT_FILE")
 }
